@@ -254,6 +254,10 @@ type FuncInfo struct {
 
 // funcName renders "Recv.name" or "name".
 func funcName(fd *ast.FuncDecl) string {
+	return canonFuncName(rawFuncName(fd))
+}
+
+func rawFuncName(fd *ast.FuncDecl) string {
 	if fd.Recv != nil && len(fd.Recv.List) == 1 {
 		t := fd.Recv.List[0].Type
 		if s, ok := t.(*ast.StarExpr); ok {
@@ -276,7 +280,7 @@ func funcs(pk *packages.Package) map[string]*FuncInfo {
 		for _, d := range f.Decls {
 			if fd, ok := d.(*ast.FuncDecl); ok {
 				obj, _ := pk.TypesInfo.Defs[fd.Name].(*types.Func)
-				m[funcName(fd)] = &FuncInfo{Decl: fd, Obj: obj, Pkg: pk}
+				m[rawFuncName(fd)] = &FuncInfo{Decl: fd, Obj: obj, Pkg: pk}
 			}
 		}
 	}
